@@ -657,9 +657,51 @@ def extract_importer_state(wdb: Path) -> str:
 
 
 
+# ---------------------------------------------------------------------------------------------
+# utils/airports.py: which airports are known
+# ---------------------------------------------------------------------------------------------
+
+def extract_airports(ap: Path) -> str:
+    """AirportsData: the row filter of _read_file (the condition of its dict comprehension), its key, the two files
+    read (main, then the patch file laid over it) and the lookup."""
+    where = 'utils/airports.py:AirportsData'
+    mod = _parse(ap)
+    rf = find_function(mod, '_read_file', cls='AirportsData')
+    comps = [n for n in ast.walk(rf) if isinstance(n, ast.DictComp)]
+    if len(comps) != 1 or len(comps[0].generators) != 1:
+        raise Untranslatable(f'{where}._read_file: expected one dict comprehension over the CSV rows')
+    dc = comps[0]
+    g = dc.generators[0]
+    if ast.unparse(g.target) != 'row' or ast.unparse(g.iter) != 'reader':
+        raise Untranslatable(f'{where}._read_file: comprehension must run over `row in reader`')
+    key = ast.unparse(dc.key)
+    flt = ' and '.join(ast.unparse(c) for c in g.ifs)
+    val = dc.value
+    if not (isinstance(val, ast.Call) and ast.unparse(val.func) == 'Airport'):
+        raise Untranslatable(f'{where}._read_file: values must be Airport(...)')
+    kw = {k.arg: ast.unparse(k.value) for k in val.keywords}
+    for k, want in (('iata_code', "row['iata_code']"), ('latitude', "float(row['latitude_deg'])"),
+                    ('longitude', "float(row['longitude_deg'])"), ('country', "row['iso_country']")):
+        if kw.get(k) != want:
+            raise Untranslatable(f'{where}._read_file: Airport.{k} = {kw.get(k)}')
+    init = find_function(mod, '__init__', cls='AirportsData')
+    srcs = [ast.unparse(x) for x in strip_doc(init.body)]
+    gi = find_function(mod, '__getitem__', cls='AirportsData')
+    lookup = ast.unparse(strip_doc(gi.body)[-1])
+    fn = find_function(mod, 'airport')
+    if ast.unparse(strip_doc(fn.body)[-1]) != 'return _airports[code]':
+        raise Untranslatable('utils/airports.py:airport(): lookup changed')
+    sl = lambda xs: '[' + '; '.join(cstr(x) for x in xs) + ']'  # noqa: E731
+    return (f'Definition airport_row_key : string := {cstr(key)}.\n'
+            f'Definition airport_row_filter : string := {cstr(flt)}.\n'
+            f'Definition airport_sources : list string := {sl(srcs)}.\n'
+            f'Definition airport_lookup : string := {cstr(lookup)}.\n')
+
+
+
 HEAD = ('(* generated by translator/c13_extract.py from the current working tree — do not edit *)\n'
         'From Coq Require Import ZArith List String Bool Ascii.\n'
-        'From AV Require Import lib.Dates model.C13_Model model.C13_Parse.\n'
+        'From AV Require Import lib.Dates model.C13_Model model.C13_Parse model.C13_Shape.\n'
         'Import ListNotations.\nOpen Scope Z_scope.\n\n')
 
 
@@ -674,7 +716,8 @@ def extract_parts(repo: Path):
              lambda: extract_dow(wdb, src / 'types/time.py') + '\n'),
             ('extract:oag.py:CSVEntry.from_csv_row', lambda: extract_parsing(oag) + '\n'),
             ('extract:writable_database.py:_add_schedule', lambda: extract_add_schedule(wdb) + '\n'),
-            ('extract:writable_database.py:importer state+_add_flight od_pair', lambda: extract_importer_state(wdb))]
+            ('extract:writable_database.py:importer state+_add_flight od_pair', lambda: extract_importer_state(wdb) + '\n'),
+            ('extract:utils/airports.py:AirportsData', lambda: extract_airports(src / 'utils/airports.py'))]
 
 
 def extract_all(repo: Path) -> str:
